@@ -30,7 +30,9 @@ const (
 	Other
 )
 
-func (e ErrClass) String() string { return [...]string{"ok", "conflict", "not-found", "other-error"}[e] }
+func (e ErrClass) String() string {
+	return [...]string{"ok", "conflict", "not-found", "other-error"}[e]
+}
 
 // DefaultOf gives the typed default value of a leaf, or nil.
 // The harness converts the default text itself for the simple types used.
